@@ -45,7 +45,7 @@ def parseEnv (t k p x : String) : Option DEnv := do
     stubAddr := fun n => BitVec.ofNat 64 (0xc000000000 + 16 * n) }
   pure { env := env, nT := ts.length, nP := ps.length, nB := 0 }
 
-def nCb : Nat := 8
+def nCb : Nat := 12
 
 /-- `NOP; MOV RDX, imm64; JMP [RDX]` → `jmp(k<i>)` / `jmp(heap)`, anything else raw -/
 def canon13 (d : DEnv) (b : Bytes) : String :=
@@ -82,19 +82,28 @@ def behStr (d : DEnv) (s : St) : String :=
 def viaCode : String → Option Nat
   | "f" => some 0 | "e" => some 1 | "m" => some 2 | "u" => some 3 | "v" => some 4 | _ => none
 
-def isMethod (t : Nat) : Bool := t ≥ 7   -- targets 7.. are the methods of T (harness/c02/targets.go)
+/-- corpus layout (harness/c02/targets.go): 0–6 functions, 7–9 methods of T, 10–11 function literals, 12–16 methods of L -/
+def isTMethod (t : Nat) : Bool := t ≥ 7 && t ≤ 9
+def isLMethod (t : Nat) : Bool := t ≥ 12
+def isMethod (t : Nat) : Bool := isTMethod t || isLMethod t
+def isLiteral (t : Nat) : Bool := t == 10 || t == 11
+
+/-- index of callback class k with the target's signature in the K list (functions; methods of T; methods of L) -/
+def cbIndex (t k : Nat) : Nat := if isTMethod t then 4 + k else if isLMethod t then 8 + k else k
 
 /-- vias m (Struct(x).Method) and u (Struct(x).ExportMethod) go through the builder's struct mocker -/
 def isStructVia (v : Nat) : Bool := v == 2 || v == 3
 
 def parseStep (d : DEnv) (toks : List String) : Option Op :=
   let chk (b t : Nat) (via : Nat) (o : Option Nat) : Bool :=
-    b < d.nB && t < d.nT && (via < 2 || isMethod t) && via < 5 &&
-    (match o with | some j => j < d.nP && ((j == 3) == isMethod t) | none => true)
+    b < d.nB && t < d.nT && via < 5 &&
+    (via < 2 || (isStructVia via && isTMethod t) || (via == 4 && isMethod t)) &&    -- m/u need Struct(&T{}); v needs a method
+    (!isLiteral t || via == 0) &&                                                      -- a func literal is reachable through Func(variable) only
+    (match o with | some j => j < d.nP && ((j == 3) == isTMethod t) && !isLMethod t | none => true)
   -- `kept`: through the kept struct mocker (tokens sa/sr/sw/sc/sk) instead of a fresh Struct(x) lookup
   let mk (kind : String) (kept : Bool) (b v t k : Nat) (o : Option Nat) : Option Op :=
     let key := v * 1000 + t
-    let kk := if isMethod t then 4 + k else k
+    let kk := cbIndex t k
     if kept && !isStructVia v then none else
     match kind with
     | "a" => if k < 4 then some (if isStructVia v then .sapply b key kk o kept else .apply b key kk o) else none
@@ -124,7 +133,7 @@ def parseStep (d : DEnv) (toks : List String) : Option Op :=
       | _ => none
     if !chk b t v o then none
     match kind with
-    | "A" => if k < 4 && o.isNone then pure (.applyH b (v * 1000 + t) (if isMethod t then 4 + k else k)) else none
+    | "A" => if k < 4 && o.isNone then pure (.applyH b (v * 1000 + t) (cbIndex t k)) else none
     | "R" => if o.isNone then pure (.retH b (v * 1000 + t)) else none
     | "a" => mk "a" false b v t k o
     | "r" => mk "r" false b v t k o
